@@ -883,5 +883,7 @@ BENIGN = [
            "        if not best_result_with_longest_msg['msg'] == \"\":\n            return best_result_with_longest_msg\n        if best_result_with_longest_msg['grade_decimal'] <= 0:\n            best_result_with_longest_msg['msg'] = self.config[\"wrong_msg\"]\n        return best_result_with_longest_msg\n"),
     Benign('results-comprehension', BASE, "        results = []\n        for answer in answers:\n            # Iterate through each entry in the expect tuple\n            answercopy = answer.copy()\n            for entry in answer['expect']:\n                answercopy['expect'] = entry\n" + _LOOP,
            "        results = [self.check_response(dict(answer, expect=entry), student_input, **kwargs)\n                   for answer in answers for entry in answer['expect']]\n"),
+    Benign('generator-helper', BASE, "        results = []\n        for answer in answers:\n            # Iterate through each entry in the expect tuple\n            answercopy = answer.copy()\n            for entry in answer['expect']:\n                answercopy['expect'] = entry\n" + _LOOP,
+           "        def single_expect_answers(alternatives):\n            for answer in alternatives:\n                answercopy = answer.copy()\n                for entry in answer['expect']:\n                    answercopy['expect'] = entry\n                    yield answercopy\n        results = [self.check_response(candidate, student_input, **kwargs)\n                   for candidate in single_expect_answers(answers)]\n"),
     Benign('log-in-loop', BASE, _LOOP, _LOOP + "                self.log('checked one alternative')\n"),
 ]
